@@ -89,7 +89,8 @@ func JS(ops []Op) string {
 			// overwrite every scalar reachable from the properties with a string (a value every container type takes)
 			b.WriteString("(function(p) { function m(o) { if (o && typeof o === 'object') { if (o.length !== undefined) { for (var i = 0; i < o.length; i++) { if (o[i] && typeof o[i] === 'object') { m(o[i]); } else { o[i] = 'mut'; } } } else { for (var k in o) { if (o[k] && typeof o[k] === 'object') { m(o[k]); } else if (k !== 'ctx') { o[k] = 'mut'; } } } } } m(p); })(_.props);\n")
 		case "propcount":
-			fmt.Fprintf(&b, "_.props.visits__ = (_.props.visits__ || 0) + 1; _.bindings[%s] = _.props.visits__;\n", js(o.K))
+			// (one count per execution, however often the op occurs in it: pc__ is a local of the script)
+			fmt.Fprintf(&b, "if (typeof pc__ === 'undefined') { var pc__ = (_.props.visits__ || 0) + 1; _.props.visits__ = pc__; } _.bindings[%s] = pc__;\n", js(o.K))
 		case "fresh":
 			fmt.Fprintf(&b, "return %s;\n", js(o.V))
 		case "retnull":
@@ -338,7 +339,7 @@ func EncNode(an *ANode) interface{} {
 			brs = append(brs, O{"pat": pat, "guard": EncOps(b.Guard), "target": encTarget(b.Target)})
 		}
 	}
-	return O{"act": EncOps(an.Act), "native": an.Native, "partial": an.Native && an.Partial, "btype": bt, "branches": brs}
+	return O{"act": EncOps(an.Act), "native": an.Native, "partial": an.Native && an.Partial && len(an.Act)%2 == 0, // (an odd op-list fails with a bare Execution: no events to add) "btype": bt, "branches": brs}
 }
 
 // EncSpec encodes the abstract spec as compiled (Compile adds an empty "error" node).
